@@ -123,57 +123,15 @@ def run(ctx, chk):
                     and [p[1] for p in byname[nm + "_id"]["params"]][1:] == [p[1] for p in m_["params"]])
             chk.check(R3, good, "Builder::%s:delegates" % nm, "does not delegate to %s_id(None, %s): %s" % (nm, ", ".join(args), show(e)[:120] if e else st), m_["where"])
     chk.floor(R3, "type_x -> type_x_id delegations", ndel, 31)
-    f = ctx.rspirv.fn(BLD, "dedup_insert_type", "Builder")
-    chk.check(R3, dedup_lookup_shape(f), "dedup_insert_type", "is not `first element of types_global_values with is_type_identical(inst) and a result id`: %s" % show(f["body"])[:200],
-              raw.where("dedup_insert_type", "Builder"))
+    from . import evalsum
+    for inst_, pb_, wh_ in evalsum.type_identity_problems(ctx):
+        chk.check(R3, pb_ is None, inst_, "%s: %s" % (inst_, pb_), raw.where(*wh_), key="C13:identity:" + inst_.split("(")[0])
     chk.check(R3, "dedup_insert_type" not in [mir_name(p).split("::")[-1] for p in mir.fns if False], "dedup:no-mutation", "", None)
     # dedup_insert_type must not mutate the module (MIR: no field writes / &mut borrows of Builder fields)
     for p, fn in mir.fns.items():
         if mir_name(p).endswith("Builder::dedup_insert_type"):
             muts = [s for b in fn["blocks"] for s in b["s"] if (s["f"] == "fw" or (s["f"] == "ref" and s["mut"])) and s.get("chain") and s["chain"][0][0].endswith("Builder")]
             chk.check(R3, not muts, "dedup_insert_type:read-only", "dedup_insert_type mutates the builder: %s" % muts[:2], raw.where("dedup_insert_type", "Builder"))
-    f = ctx.rspirv.fn("rspirv::dr::constructs", "is_type_identical", "Instruction", False)
-    from ..symeval import SymEval, Hooks
-
-    class IH(Hooks):
-        def __init__(self, op_eq, ops_eq):
-            self.op_eq, self.ops_eq = op_eq, ops_eq
-
-        def path(self, p):
-            return ("inst", "self") if p == "self" else NotImplemented
-
-        def field(self, base, name, e):
-            if isinstance(base, tuple) and base[0] == "inst":
-                if name == "class":
-                    return ("class", base[1])
-                if name == "operands":
-                    return ("operands", base[1])
-                return ("otherfield", name, base[1])
-            if isinstance(base, tuple) and base[0] == "class" and name == "opcode":
-                return ("opcode", base[1])
-            return NotImplemented
-
-        def binary(self, op, a, b, e):
-            if op in ("==", "!=") and isinstance(a, tuple) and isinstance(b, tuple) and a[0] == b[0] and a[0] in ("opcode", "operands") and a[1] != b[1]:
-                eq = self.op_eq if a[0] == "opcode" else self.ops_eq
-                return eq == (op == "==")
-            return NotImplemented
-
-        def mcall(self, recv, m, args, e, ev):
-            if isinstance(recv, tuple) and recv[0] == "operands" and m in ("eq", "ne") and len(args) == 1:
-                return self.ops_eq == (m == "eq")
-            return NotImplemented
-    other = f["sig"]["params"][1][0]
-    tab = {}
-    try:
-        for a_ in (True, False):
-            for b_ in (True, False):
-                tab[(a_, b_)] = SymEval(IH(a_, b_), "is_type_identical").run(f, {other: ("inst", "other")})
-        good = all(tab[k] == (k[0] and k[1]) for k in tab)
-        chk.check(R3, good, "is_type_identical", "identity is not `same opcode and equal operands`: %s" % {str(k): v for k, v in tab.items()},
-                  raw.where("is_type_identical", "Instruction"))
-    except Anchor as ex:
-        chk.bad(R3, "is_type_identical", "not analysable: %s" % ex, raw.where("is_type_identical", "Instruction"))
     chk.analysed.update({"builder_methods": len(ms), "emitting": n, "dedup_methods": nd, "next_id_writers": sorted(writers)})
 
 
